@@ -1132,8 +1132,13 @@ pub fn coordinator_main(prop: &dyn Prop, tier: Tier, seed: u64) -> i32 {
             violation_lines.push(format!("VIOLATION property={id} replay={path}"));
             continue;
         }
+        // two replays in fresh processes; when they disagree, up to six more: the outcome of the case then depends on
+        // something the case does not fix (hash order inside the implementation), and every replay that shows the
+        // violation again is an independent second observation of it
         let mut confirmations = 0;
-        for _ in 0..2 {
+        let mut replays = 0;
+        while replays < 8 {
+            replays += 1;
             let out = Command::new(&exe)
                 .arg(id)
                 .arg("--replay")
@@ -1146,15 +1151,24 @@ pub fn coordinator_main(prop: &dyn Prop, tier: Tier, seed: u64) -> i32 {
                     confirmations += 1;
                 }
             }
+            if replays >= 2 && confirmations == replays {
+                break;
+            }
+            if replays >= 4 && confirmations == 0 {
+                break;
+            }
         }
-        if confirmations == 2 {
+        if confirmations == replays {
+            violation_lines.push(format!("VIOLATION property={id} replay={path}"));
+        } else if confirmations > 0 {
+            println!("NOTE: {sig} reproduced {confirmations}/{replays} times on replay: the outcome of this case depends on something the case does not fix (hash order inside the implementation)");
             violation_lines.push(format!("VIOLATION property={id} replay={path}"));
         } else if prop.observation_is_proof() {
-            println!("NOTE: {sig} was observed in the run and reproduced {confirmations}/2 times on replay (the observation is the counterexample)");
+            println!("NOTE: {sig} was observed in the run and reproduced {confirmations}/{replays} times on replay (the observation is the counterexample)");
             violation_lines.push(format!("VIOLATION property={id} replay={path}"));
         } else {
             machinery.push(format!(
-                "violation {sig} reproduced {confirmations}/2 times on replay ({path}): not deterministic"
+                "violation {sig} reproduced {confirmations}/{replays} times on replay ({path}): not deterministic"
             ));
         }
     }
